@@ -615,8 +615,9 @@ def rule_len(ctx: Ctx) -> RuleReport:
 
 def rule_wrap(ctx: Ctx) -> RuleReport:
     rep = RuleReport("C20-WRAP", "CryptAES wrapper: fresh IV per call, IV prepended, pad before encrypt, unpad after decrypt; PKCS#7 helpers")
-    enc = ctx.p.func(AES, "patch_pypdf_fallback_aes.<locals>._cryptaes_encrypt")
-    dec = ctx.p.func(AES, "patch_pypdf_fallback_aes.<locals>._cryptaes_decrypt")
+    # the wrapper methods: closures of the patch function, or functions of the module it installs by name
+    enc = ctx.p.maybe_func(AES, "patch_pypdf_fallback_aes.<locals>._cryptaes_encrypt") or ctx.p.func(AES, "_cryptaes_encrypt")
+    dec = ctx.p.maybe_func(AES, "patch_pypdf_fallback_aes.<locals>._cryptaes_decrypt") or ctx.p.func(AES, "_cryptaes_decrypt")
     rep.unit(enc.key)
     rep.unit(dec.key)
     # fresh IV: assigned in the body from secrets.token_bytes(16) / os.urandom(16); not a parameter, not a default
